@@ -150,7 +150,7 @@ FNS = [
     fn("try_unleak_slot_internal", props=["C16", "C08", "C15"], kind="helper",
        sig="pub fn try_unleak_slot_internal(&mut self, slot_id: u32) -> (r: bool)", sig_anchor=r"fn try_unleak_slot_internal\(&'a self, slot_id: u32\) -> bool",
        ensures="r <==> old(self).enqueuer_tail@ == slot_id.wrapping_add(1), r ==> final(self).enqueuer_tail@ == slot_id, !r ==> final(self).enqueuer_tail == old(self).enqueuer_tail, final(self).same_but_enqueuer_tail(old(self))"),
-    fn("leak_slot_internal", props=["C02", "C08", "C15", "C16", "C01", "C13", "C03", "C05"], attrs="#[verifier::exec_allows_no_decreases_clause]",
+    fn("leak_slot_internal", props=["C02", "C08", "C15", "C16", "C01", "C13", "C03", "C05", "C18"], attrs="#[verifier::exec_allows_no_decreases_clause]",
        sig="pub fn leak_slot_internal<ReportFullFn: Fn() -> bool>(&mut self, report_full_fn: ReportFullFn) -> (r: Option<(usize, u32, u32)>)",
        sig_anchor=r"pub fn leak_slot_internal\(&self, report_full_fn: impl Fn\(\) -> bool\) -> Option<\(&mut SlotType, u32, u32\)>",
        rules=[MUTBUF,
@@ -162,27 +162,27 @@ FNS = [
                "   && len_before as int == old(self).len() + old(self).resv() && final(self).enqueuer_tail@ == old(self).enqueuer_tail@.wrapping_add(1)),"
                "old(self).len() + old(self).resv() >= BUFFER_SIZE ==> r is None && final(self).enqueuer_tail == old(self).enqueuer_tail",
        loops={0: "invariant old(self).inv(), self.same_but_enqueuer_tail(old(self)), self.enqueuer_tail@ == old(self).enqueuer_tail@.wrapping_add(1), slot_id == old(self).enqueuer_tail@, " + NO_RETRY + ","}),
-    fn("try_publish_leaked_internal", props=["C08", "C02", "C15", "C03", "C05"], kind="helper",
+    fn("try_publish_leaked_internal", props=["C08", "C02", "C15", "C03", "C05", "C18"], kind="helper",
        sig="pub fn try_publish_leaked_internal(&mut self, slot_id: u32) -> (r: bool)", sig_anchor=r"pub fn try_publish_leaked_internal\(&'a self, slot_id: u32\) -> bool",
        ensures="r <==> old(self).tail@ == slot_id, r ==> final(self).tail@ == slot_id.wrapping_add(1), !r ==> final(self).tail == old(self).tail,"
                "final(self).head == old(self).head && final(self).dequeuer_head == old(self).dequeuer_head && final(self).enqueuer_tail == old(self).enqueuer_tail && final(self).written == old(self).written && final(self).moved_out == old(self).moved_out"),
-    fn("publish_leaked_internal", props=["C08", "C02", "C15", "C20", "C13", "C03", "C05"],
+    fn("publish_leaked_internal", props=["C08", "C02", "C15", "C20", "C13", "C03", "C05", "C18"],
        sig="pub fn publish_leaked_internal(&mut self, slot_id: u32)", sig_anchor=r"pub fn publish_leaked_internal\(&'a self, slot_id: u32\)",
        requires="old(self).tail@ == slot_id, old(self).written@.contains(slot_id)",
        ensures="final(self).tail@ == slot_id.wrapping_add(1), final(self).head == old(self).head && final(self).dequeuer_head == old(self).dequeuer_head && final(self).enqueuer_tail == old(self).enqueuer_tail && final(self).written == old(self).written && final(self).moved_out == old(self).moved_out",
        loops={0: "invariant_except_break self.tail@ == slot_id, self.head == old(self).head && self.dequeuer_head == old(self).dequeuer_head && self.enqueuer_tail == old(self).enqueuer_tail && self.written == old(self).written && self.moved_out == old(self).moved_out,\n"
                  "ensures self.tail@ == slot_id.wrapping_add(1), self.head == old(self).head && self.dequeuer_head == old(self).dequeuer_head && self.enqueuer_tail == old(self).enqueuer_tail && self.written == old(self).written && self.moved_out == old(self).moved_out,\n"
                  "decreases 0int,"}),
-    fn("available_elements_count", impl=IMPL_PUB, props=["C02", "C15", "C16", "C13", "C03", "C05"],
+    fn("available_elements_count", impl=IMPL_PUB, props=["C02", "C15", "C16", "C13", "C03", "C05", "C18"],
        sig="pub fn available_elements_count(&self) -> (r: usize)", sig_anchor=r"fn available_elements_count\(&self\) -> usize",
        ensures="r as int == self.len()"),
-    fn("release_leaked_internal", props=["C01", "C02", "C15", "C13", "C08", "C03", "C05"], attrs="#[verifier::exec_allows_no_decreases_clause]",
+    fn("release_leaked_internal", props=["C01", "C02", "C15", "C13", "C08", "C03", "C05", "C18"], attrs="#[verifier::exec_allows_no_decreases_clause]",
        sig="pub fn release_leaked_internal(&mut self, slot_id: u32)", sig_anchor=r"pub fn release_leaked_internal\(&self, slot_id: u32\)",
        rules=[Rule("R8-break", r"Ok\(_\) => break,", "Ok(_) => return,", min=0, note="`break` of the tail loop -> `return`")], loops_optional=True,
        requires="old(self).head@ == slot_id",
        ensures="final(self).head@ == slot_id.wrapping_add(1), final(self).tail == old(self).tail && final(self).dequeuer_head == old(self).dequeuer_head && final(self).enqueuer_tail == old(self).enqueuer_tail && final(self).written == old(self).written && final(self).moved_out == old(self).moved_out",
        loops={0: "invariant self.head@ == slot_id, self.tail == old(self).tail && self.dequeuer_head == old(self).dequeuer_head && self.enqueuer_tail == old(self).enqueuer_tail && self.written == old(self).written && self.moved_out == old(self).moved_out,"}),
-    fn("consume_leaking_internal", props=["C01", "C02", "C15", "C13", "C08", "C03", "C05"], attrs="#[verifier::exec_allows_no_decreases_clause]",
+    fn("consume_leaking_internal", props=["C01", "C02", "C15", "C13", "C08", "C03", "C05", "C18"], attrs="#[verifier::exec_allows_no_decreases_clause]",
        sig="pub fn consume_leaking_internal<ReportEmptyFn: Fn() -> bool>(&mut self, report_empty_fn: ReportEmptyFn) -> (r: Option<(usize, u32, i32)>)",
        sig_anchor=r"fn consume_leaking_internal\(&self, report_empty_fn: impl Fn\(\) -> bool\) -> Option<\(&'a mut SlotType, u32, i32\)>",
        rules=[MUTBUF,
@@ -202,7 +202,7 @@ IMPL_SUB = r"MoveSubscriber\s*<\s*SlotType\s*>\s*for\s+AtomicMove\s*<\s*SlotType
 CLOSURE_FALSE = Rule("R15-closure-false", r"\|\| false", "|| -> (b: bool) ensures !b { false }", count=1, note="`|| false` with its (trivial) specification")
 FNS += [
     # C01 mechanism: the payload is written BEFORE the slot is published (a consumer must never see an unwritten slot); whole-view counters
-    fn("publish_movable", impl=IMPL_PUB, props=["C01", "C02", "C16", "C15", "C13", "C03", "C05"], kind="mechanism",
+    fn("publish_movable", impl=IMPL_PUB, props=["C01", "C02", "C16", "C15", "C13", "C03", "C05", "C18"], kind="mechanism",
        sig="pub fn publish_movable(&mut self, item: u64) -> (r: (Option<NonZeroU32>, Option<u64>))",
        sig_anchor=r"fn publish_movable\(&self, item: SlotType\) -> \(Option<NonZeroU32>, Option<SlotType>\)",
        rules=[CLOSURE_FALSE,
@@ -234,7 +234,7 @@ FNS += [
                  " slot_id == slot_index || (slot_id as int) / (BUFFER_SIZE as int) == (old(self).enqueuer_tail@.wrapping_sub(1) as int) / (BUFFER_SIZE as int),\n"
                  "decreases (old(self).enqueuer_tail@.wrapping_sub(1) as int) / (BUFFER_SIZE as int) - (slot_id as int) / (BUFFER_SIZE as int),"}),
     # C08: publishing a reservation by INDEX: only the oldest reservation (id = tail) can be published, it always is (sequentially)
-    fn("try_publish_leaked_internal_index", props=["C08", "C15", "C02", "C03", "C05"],
+    fn("try_publish_leaked_internal_index", props=["C08", "C15", "C02", "C03", "C05", "C18"],
        sig="pub fn try_publish_leaked_internal_index(&mut self, slot_index: u32) -> (r: Option<NonZeroU32>)",
        sig_anchor=r"pub fn try_publish_leaked_internal_index\(&'a self, slot_index: u32\) -> Option<NonZeroU32>",
        rules=[Rule("R8-break-value", r"\bbreak (NonZeroU32::new\(.*\)),$", r"return \1,", count=1, note="`break v` of the tail loop -> `return v`", flags=__import__("re").M),
@@ -304,16 +304,16 @@ def fn_a(name, **kw):
 
 
 FNS_A = [
-    fn_a("try_publish_leaked_internal", props=["C01", "C02", "C08", "C13", "C03", "C05"], kind="mechanism", model="A",
+    fn_a("try_publish_leaked_internal", props=["C01", "C02", "C08", "C13", "C03", "C05", "C18"], kind="mechanism", model="A",
          sig="pub fn try_publish_leaked_internal(&mut self, slot_id: u32) -> (r: bool)", sig_anchor=r"pub fn try_publish_leaked_internal\(&'a self, slot_id: u32\) -> bool",
          ensures="r ==> final(self).tail.commits@ == old(self).tail.commits@.push((slot_id, slot_id.wrapping_add(1))), !r ==> final(self).tail == old(self).tail, final(self).head == old(self).head"),
-    fn_a("publish_leaked_internal", props=["C01", "C02", "C08", "C13", "C03", "C05"], kind="mechanism", model="A", attrs="#[verifier::exec_allows_no_decreases_clause]",
+    fn_a("publish_leaked_internal", props=["C01", "C02", "C08", "C13", "C03", "C05", "C18"], kind="mechanism", model="A", attrs="#[verifier::exec_allows_no_decreases_clause]",
          sig="pub fn publish_leaked_internal(&mut self, slot_id: u32)", sig_anchor=r"pub fn publish_leaked_internal\(&'a self, slot_id: u32\)",
          rules=[Rule("R8-break", r"\bbreak\b(?=\s*[,;}])", "return", min=0, note="`break` of the tail loop -> `return`")],
          ensures="final(self).tail.commits@ == old(self).tail.commits@.push((slot_id, slot_id.wrapping_add(1))), final(self).head == old(self).head",
          loops={0: "invariant_except_break self.tail.commits == old(self).tail.commits, self.head == old(self).head,\n"
                    "ensures self.tail.commits@ == old(self).tail.commits@.push((slot_id, slot_id.wrapping_add(1))), self.head == old(self).head,"}, loops_optional=True),
-    fn_a("release_leaked_internal", props=["C01", "C02", "C08", "C13", "C03", "C05"], kind="mechanism", model="A", attrs="#[verifier::exec_allows_no_decreases_clause]",
+    fn_a("release_leaked_internal", props=["C01", "C02", "C08", "C13", "C03", "C05", "C18"], kind="mechanism", model="A", attrs="#[verifier::exec_allows_no_decreases_clause]",
          sig="pub fn release_leaked_internal(&mut self, slot_id: u32)", sig_anchor=r"pub fn release_leaked_internal\(&self, slot_id: u32\)",
          rules=[Rule("R8-break", r"\bbreak\b(?=\s*[,;}])", "return", min=0, note="`break` of the tail loop -> `return`")],
          ensures="final(self).head.commits@ == old(self).head.commits@.push((slot_id, slot_id.wrapping_add(1))), final(self).tail == old(self).tail",
